@@ -4,6 +4,7 @@ package main
 
 import (
 	"fmt"
+	"go/types"
 	"strings"
 
 	"golang.org/x/tools/go/ssa"
@@ -73,6 +74,9 @@ func recursiveSites(w *World, fns []*ssa.Function) map[*ssa.Function][]*ssa.Call
 
 func runC18(w *World, c *Check) {
 	c.Rule("C18.bounded", "every recursive call of the SPNEGO client's request function is bounded by an increasing counter or by the length of the redirect chain, each tested against a constant", 2)
+	c.Rule("C18.measure", "the redirect chain that bounds the recursion only grows: every store to it inside the request function appends", 1)
+	c.Rule("C18.request", "a retry changes nothing of the request but its Body reader (and the Authorization header): no other field of the *http.Request is stored", 2)
+	c.Rule("C18.identity", "the authenticator of the token names the client of the credentials: crealm and cname come from Credentials.Domain()/CName() and are not overwritten", 3)
 	c.Rule("C18.body", "a request body is replayed from the tee buffer on both retry paths; the 401 response is drained and closed before retrying", 4)
 	c.Rule("C18.header", "Authorization: Negotiate base64(token for the intended SPN); errors return before the header is set; challenge = 401 + WWW-Authenticate: Negotiate; redirects drop the Authorization header", 9)
 	c.Rule("C18.token", "the mechanism token carries the ticket and session key given, with the RFC 4121 §4.1.1 authenticator checksum", 6)
@@ -331,4 +335,86 @@ func runC18(w *World, c *Check) {
 	checkCalls(w, c, "C18.token", "spnego.krb5TokenAuthenticator", []CallSpec{
 		{Name: "authenticator-identity", Desc: "the authenticator names the client's realm and principal", Callee: `types\.NewAuthenticator`, Want: `types\.NewAuthenticator\(credentials\.\(\*Credentials\)\.Domain\(creds\), credentials\.\(\*Credentials\)\.CName\(creds\)\)`},
 	})
+	ruleC18Extras(w, c)
+}
+
+func ruleC18Extras(w *World, c *Check) {
+	// ---- the bounding measure is monotone, the request is otherwise untouched --------------------
+	if fn := w.Func("spnego.(*Client).do"); fn == nil {
+		c.Missing("C18.measure", "spnego.(*Client).do")
+	} else {
+		fa := NewFuncAn(w, fn)
+		fk := FuncKey(fn)
+		n := 0
+		for _, st := range fa.storesTo(`recv\.reqs`) {
+			n++
+			v := fa.R.R(st.Val)
+			c.Decide(strings.HasPrefix(v, "append(recv.reqs, ["), "C18.measure", fk, fmt.Sprintf("reqs-store#%d", n), w.Pos(InstrPos(st)), "the redirect chain is only appended to", "stores "+trunc(v, 120)+" into the chain whose length bounds the recursion: resetting it lets challenge/redirect alternation run forever")
+		}
+		if n == 0 {
+			c.Fail("C18.measure", fk, "reqs-store", w.Pos(fn.Pos()), "the redirect chain is recorded", "no store to recv.reqs")
+		}
+		// stores into fields of an *http.Request
+		m := 0
+		for _, b := range fn.Blocks {
+			for _, in := range b.Instrs {
+				st, ok := in.(*ssa.Store)
+				if !ok {
+					continue
+				}
+				fad, ok := st.Addr.(*ssa.FieldAddr)
+				if !ok {
+					continue
+				}
+				pt, ok := fad.X.Type().Underlying().(*types.Pointer)
+				if !ok || pt.Elem().String() != "net/http.Request" {
+					continue
+				}
+				fld := pt.Elem().Underlying().(*types.Struct).Field(fad.Field).Name()
+				m++
+				c.Decide(fld == "Body", "C18.request", fk, fmt.Sprintf("request-store#%d:%s", m, fld), w.Pos(InstrPos(st)), "only the Body reader of a request is replaced", "stores into Request."+fld+": the request that is replayed is no longer the original one (a declared length over a partly consumed buffer sends a truncated body)")
+			}
+		}
+		if m == 0 {
+			c.Fail("C18.request", fk, "request-store", w.Pos(fn.Pos()), "the body reader is replaced for replay", "no store into a request")
+		}
+	}
+	// ---- the authenticator's identity ----------------------------------------------------------------------------
+	if fn := w.Func("spnego.krb5TokenAuthenticator"); fn == nil {
+		c.Missing("C18.identity", "spnego.krb5TokenAuthenticator")
+	} else {
+		checkCalls(w, c, "C18.identity", "spnego.krb5TokenAuthenticator", []CallSpec{
+			{Name: "from-credentials", Desc: "the authenticator is created for the credentials' realm and name", Callee: `types\.NewAuthenticator`,
+				Want: substParams(fn, `types\.NewAuthenticator\(credentials\.\(\*Credentials\)\.Domain\(@0\), credentials\.\(\*Credentials\)\.CName\(@0\)\)`), AllMustMatch: true},
+		})
+	}
+	for _, fk := range []string{"spnego.krb5TokenAuthenticator", "spnego.NewKRB5TokenAPREQ"} {
+		fn := w.Func(fk)
+		if fn == nil {
+			c.Missing("C18.identity", fk)
+			continue
+		}
+		var bad []string
+		for _, b := range fn.Blocks {
+			for _, in := range b.Instrs {
+				st, ok := in.(*ssa.Store)
+				if !ok {
+					continue
+				}
+				fad, ok := st.Addr.(*ssa.FieldAddr)
+				if !ok {
+					continue
+				}
+				pt, ok := fad.X.Type().Underlying().(*types.Pointer)
+				if !ok || !strings.HasSuffix(pt.Elem().String(), "types.Authenticator") {
+					continue
+				}
+				fld := pt.Elem().Underlying().(*types.Struct).Field(fad.Field).Name()
+				if fld == "CRealm" || fld == "CName" {
+					bad = append(bad, fld)
+				}
+			}
+		}
+		c.Decide(len(bad) == 0, "C18.identity", fk, "not-overwritten", w.Pos(fn.Pos()), "crealm and cname of the authenticator are not overwritten after it was created for the credentials", fmt.Sprintf("stores into Authenticator.%v: the acceptor compares them with the ticket's client and rejects a mismatch (cross-realm)", bad))
+	}
 }
